@@ -1,9 +1,82 @@
-(* C05 - every PGN setter/parser pair round-trips all field values.  (stage 1: the generated model runs; theorems follow) *)
-From Coq Require Import ZArith List.
-From N2kV Require Import Model.MsgIR Model.MsgExec Gen.GenMessages.
+(* C05 - every PGN setter/parser pair round-trips all field values.
+   Generic theorems (Spec/MsgSpec.v, proved in Proofs/MsgProofs.v) over the field-level IR, instantiated on the IR terms that
+   tools/cxx2coq.py regenerates from the C++ on every run (Gen/GenMessages.v) through the generated boolean obligations of
+   Gen/GenObligations.v (one rt_<setter>__<parser> per pair and alias, one guard_<parser> per parser, closed by vm_compute).
+   Pairs outside the shape the generic theorem covers (conditional fields, variable length strings, repeated records) are listed in
+   GenObligations.v and in the evidence; they are tied by the correspondence and judged by the oracle only. *)
+From Coq Require Import ZArith List Bool.
+From N2kV Require Import Model.SoftFloat Model.NumDefs Model.MsgIR Model.MsgExec Spec.NumSpec Spec.MsgSpec Proofs.MsgProofs
+                         Gen.GenMessages Gen.GenObligations.
 Import ListNotations.
 Local Open Scope Z_scope.
 
-Example C05_model_runs : option_map m_len (exec_set s_SetN2kPGN127251 [VI 7; VD 0]) = Some 8.
+Theorem C05_roundtrip_sound : roundtrip_sound_stmt.  Proof. exact roundtrip_sound. Qed.
+Print Assumptions C05_roundtrip_sound.
+Theorem C05_guard_sound : guard_sound_stmt.  Proof. exact guard_sound. Qed.
+Print Assumptions C05_guard_sound.
+Theorem C05_locality : locality_stmt.  Proof. exact locality. Qed.
+Print Assumptions C05_locality.
+Theorem C05_scaled_rt_spec : scaled_rt_spec_stmt.  Proof. exact scaled_rt_spec. Qed.
+Print Assumptions C05_scaled_rt_spec.
+
+(* every generated pair (and alias) whose obligation is stated: for all arguments in range the parser accepts the setter's message -
+   whatever bytes follow the payload - and returns, for every listed (output, argument), the argument itself (integer, enumeration,
+   flag) or the decoding of the code the setter stored (scaled fields: see C05_scaled_rt_spec and C06) *)
+Theorem C05_all_pairs_roundtrip :
+  forall s p gamma m, In (s, p, gamma, m) rt_pairs ->
+  exists descs, rt_descs s p gamma m = Some descs /\
+  forall sargs pargs garbage, in_range gamma sargs ->
+  exists msg, exec_set s sargs = Some msg /\
+    let r := exec_parse p pargs (with_garbage msg garbage) in
+    r_ret r = true /\ r_ub r = false /\ r_unsup r = false /\
+    forall j a d, In (j, a, d) descs -> exists v, nth_error sargs a = Some v /\ out_of r j = Some (expected d v).
+Proof.
+  intros s p gamma m Hin.
+  assert (C := rt_pairs_checked). rewrite forallb_forall in C. specialize (C _ Hin). cbn beta iota in C.
+  unfold rt_check in C. destruct (rt_descs s p gamma m) as [descs|] eqn:E; [|discriminate].
+  exists descs. split; [reflexivity|]. intros sargs pargs garbage IR. exact (roundtrip_sound s p gamma m descs E sargs pargs garbage IR).
+Qed.
+Print Assumptions C05_all_pairs_roundtrip.
+
+(* every parser that starts with the PGN test refuses every other PGN *)
+Theorem C05_all_parsers_refuse_other_pgns :
+  forall p n, In (p, n) guarded_parsers -> forall args msg, m_pgn msg <> n -> exec_parse p args msg = refused.
+Proof.
+  intros p n Hin. assert (C := guarded_parsers_checked). rewrite forallb_forall in C. specialize (C _ Hin). cbn [fst snd] in C.
+  exact (guard_sound p n C).
+Qed.
+Print Assumptions C05_all_parsers_refuse_other_pgns.
+
+(* ---- the check is not vacuous: it accepts a matching pair and rejects each kind of mismatch the property is about *)
+Definition p01 : Z := 4576918229304087675.   (* 0.01 *)
+Definition p1 : Z := 4607182418800017408.     (* 1.0 *)
+Definition ex_set : setter :=
+  {| s_pgn := 1; s_prio := 6; s_dest := None; s_args := [TInt 8 false; TDbl];
+     s_body := WSeq (WInt 1 (EArg 0)) (WDouble 2 false p01 (DArg 1)) |}.
+Definition ex_parse (first second:pstmt) : parser :=
+  {| p_guard := Some 1; p_body := PSeq (PSetIdx (EConst 0)) (PSeq first (PSeq second (PRet (EConst 1)))) |}.
+Definition rd_int (out:iexpr) : pstmt := PSeq (PRead 0 (RInt 1 false 255)) (POutI 0 out).
+Definition rd_dbl (s:bool) (p:Z) : pstmt := PSeq (PRead 1 (RDouble 2 s p na_double_bits)) (POutD 1 (DSlot 1)).
+Definition ex_map : list (nat * nat) := [(0%nat, 0%nat); (1%nat, 1%nat)].
+Definition ex_gamma : list argty := [TInt 8 false; TDbl].
+
+Example C05_check_accepts_matching_pair : rt_check ex_set (ex_parse (rd_int (ESlot 0)) (rd_dbl false p01)) ex_gamma ex_map = true.
 Proof. vm_compute. reflexivity. Qed.
-Print Assumptions C05_model_runs.
+Print Assumptions C05_check_accepts_matching_pair.
+Example C05_check_rejects_mismatches :
+  rt_check ex_set (ex_parse (rd_int (ESlot 0)) (rd_dbl false p1)) ex_gamma ex_map = false                       (* different resolution *)
+  /\ rt_check ex_set (ex_parse (rd_int (ESlot 0)) (rd_dbl true p01)) ex_gamma ex_map = false                    (* different signedness *)
+  /\ rt_check ex_set (ex_parse (rd_int (EAnd (ESlot 0) (EConst 15))) (rd_dbl false p01)) ex_gamma ex_map = false (* parser mask narrower than the field *)
+  /\ rt_check ex_set (ex_parse (rd_int (ESlot 0)) (PSeq (PRead 1 (RInt 2 false 65535)) (POutI 1 (ESlot 1)))) ex_gamma ex_map = false  (* scaled written, plain read *)
+  /\ rt_check ex_set (ex_parse (rd_dbl false p01) (rd_int (ESlot 0))) ex_gamma ex_map = false                   (* different order *)
+  /\ rt_check ex_set (ex_parse (rd_int (EAnd (ESlot 0) (EConst 15))) (rd_dbl false p01)) [TInt 4 false; TDbl] ex_map = false.  (* a narrower assumed range cannot hide bits the setter writes *)
+Proof. vm_compute. repeat split; reflexivity. Qed.
+Print Assumptions C05_check_rejects_mismatches.
+
+(* a generated pair, run: PGN 127245 (rudder), position -0.1234 rad, instance 3, direction order 2, angle order "not available" *)
+Example C05_nonvacuous :
+  option_map (fun m => (m_pgn m, m_data m, r_ret (exec_parse p_ParseN2kPGN127245 [] m), out_of (exec_parse p_ParseN2kPGN127245 [] m) 1))
+             (exec_set s_SetN2kPGN127245 [VD 13816928364622221043; VI 3; VI 2; VD na_double_bits])
+  = Some (127245, [3; 250; 255; 127; 46; 251; 255; 255], true, Some (VI 3)).
+Proof. vm_compute. reflexivity. Qed.
+Print Assumptions C05_nonvacuous.
